@@ -60,7 +60,7 @@ func (r *ruleImpl) Execute(ctx heimdall.Context) (rule.Backend, error) {
 		// unescape path
 		request.URL.RawPath = ""
 	case config.EncodedSlashesOff:
-		if strings.Contains(request.URL.RawPath, "%2F") {
+		if containsEncodedSlash(request.URL.RawPath) {
 			return nil, errorchain.NewWithMessage(heimdall.ErrArgument,
 				"path contains encoded slash, which is not allowed")
 		}
@@ -160,7 +160,17 @@ func unescape(value string, handling config.EncodedSlashesHandling) string {
 		return unescaped
 	}
 
-	unescaped, _ := url.PathUnescape(strings.ReplaceAll(value, "%2F", "$$$escaped-slash$$$"))
+	unescaped, _ := url.PathUnescape(encodedSlashReplacer.Replace(value))
 
 	return strings.ReplaceAll(unescaped, "$$$escaped-slash$$$", "%2F")
+}
+
+// percent-encoding is case-insensitive (RFC 3986, section 2.1): %2f is an encoded slash as well.
+var encodedSlashReplacer = strings.NewReplacer( //nolint:gochecknoglobals
+	"%2F", "$$$escaped-slash$$$",
+	"%2f", "$$$escaped-slash$$$",
+)
+
+func containsEncodedSlash(path string) bool {
+	return strings.Contains(path, "%2F") || strings.Contains(path, "%2f")
 }
